@@ -628,6 +628,15 @@ func (s *Server) buildArguments(ctx context.Context, params any, method Method) 
 		}
 
 		for i, param := range paramsList {
+			if param == nil {
+				// JSON null: "not given" for an optional parameter, never a value of a required one
+				// (it would reach the handler as a nil pointer / a silently zeroed value)
+				if !method.Params[i].Optional {
+					return nil, errors.New("null is not a valid value for required param: " + method.Params[i].Name)
+				}
+				args = append(args, reflect.New(handlerType.In(i+addContext)).Elem())
+				continue
+			}
 			v, err := s.parseParam(param, handlerType.In(i+addContext))
 			if err != nil {
 				return nil, err
@@ -644,10 +653,17 @@ func (s *Server) buildArguments(ctx context.Context, params any, method Method) 
 		for i, configuredParam := range method.Params {
 			var v reflect.Value
 			if param, found := paramsMap[configuredParam.Name]; found {
-				var err error
-				v, err = s.parseParam(param, handlerType.In(i+addContext))
-				if err != nil {
-					return nil, err
+				if param == nil {
+					if !configuredParam.Optional {
+						return nil, errors.New("null is not a valid value for required param: " + configuredParam.Name)
+					}
+					v = reflect.New(handlerType.In(i + addContext)).Elem()
+				} else {
+					var err error
+					v, err = s.parseParam(param, handlerType.In(i+addContext))
+					if err != nil {
+						return nil, err
+					}
 				}
 
 				delete(paramsMap, configuredParam.Name)
